@@ -4,6 +4,7 @@ package shell_operator
 
 import (
 	"context"
+	htypes "github.com/flant/shell-operator/pkg/hook/types"
 	"strconv"
 
 	"github.com/deckhouse/deckhouse/pkg/log"
@@ -51,6 +52,8 @@ func vhC07Task(i int, nctxMax int) vhTaskDesc {
 	for j := 0; j < nctx; j++ {
 		bc := bctx.BindingContext{Binding: "c" + si + "_" + strconv.Itoa(j)}
 		bc.Metadata.Group = zz.OneOf("group"+si+"_"+strconv.Itoa(j), "", "g1", "g2")
+		// a group may be shared by bindings of different kinds (kubernetes and schedule)
+		bc.Metadata.BindingType = htypes.BindingType(zz.OneOf("btype"+si+"_"+strconv.Itoa(j), string(htypes.OnKubernetesEvent), string(htypes.Schedule)))
 		d.ctxs = append(d.ctxs, bc)
 	}
 	if zz.Bool("mon" + si) {
